@@ -182,3 +182,7 @@ End CRL.
 Arguments mkEntry {T}. Arguments en_serial {T}. Arguments en_time {T}. Arguments en_exts {T}.
 Arguments mkTbs {T}. Arguments t_alg {T}. Arguments t_issuer {T}. Arguments t_this {T}. Arguments t_next {T}.
 Arguments t_entries {T}. Arguments t_exts {T}.
+
+(* the instance the correspondence runner uses: times are handed over as the elements time.Time encodes to *)
+Definition build_tbs_raw : bool -> tbs_crl (N * list N) -> list N := build_tbs (N * list N) (fun e => e).
+Definition parse_tbs_raw : list N -> outcome (tbs_crl (N * list N)) := parse_tbs (N * list N) (fun e => Some e).
